@@ -150,21 +150,28 @@ func kindSet(ops []*token) string {
 	}
 	members := map[string]bool{} // members of the family {A, A', A^} that occur
 	for _, t := range ops {
-		switch b := base(t); b {
-		case "A", "A'", "A^":
+		if b := base(t); b == "A" || (strings.HasPrefix(b, "A") && len(b) > 1) {
 			members[b] = true
 		}
 	}
 	letters := map[string]string{}
+	generic := map[string]string{}
 	name := func(k string) string {
 		if strings.HasPrefix(k, "!") {
 			return k
 		}
 		root, mark := k, ""
-		if k == "A'" || k == "A^" {
+		if strings.HasPrefix(k, "A") && len(k) > 1 {
 			root = "A"
-			if len(members) > 1 {
+			switch {
+			case len(members) <= 1:
+			case members["A"] || k == "A'" || k == "A^":
 				mark = k[1:]
+			default: // siblings of each other without A itself: numbered by first appearance
+				if generic[k] == "" {
+					generic[k] = fmt.Sprintf("+t%d", len(generic)+1)
+				}
+				mark = generic[k]
 			}
 		}
 		if letters[root] == "" {
